@@ -56,10 +56,22 @@ RESET_INIT = {"major": 0, "minor": 0, "patch": 0, "num": 0, "inc0": 0, "inc1": 1
 CAL_FIELDS = ["year_y", "year_g", "quarter", "month", "dom", "doy", "week_w", "week_u", "week_v"]
 
 
+# the README's part table, written down here (NOT read from the implementation): part -> field of the version it shows
+SPEC_FIELDS = {"YYYY": "year_y", "YY": "year_y", "0Y": "year_y", "GGGG": "year_g", "GG": "year_g", "0G": "year_g", "Q": "quarter", "MM": "month", "0M": "month",
+               "DD": "dom", "0D": "dom", "JJJ": "doy", "00J": "doy", "WW": "week_w", "0W": "week_w", "UU": "week_u", "0U": "week_u", "VV": "week_v", "0V": "week_v",
+               "MAJOR": "major", "MINOR": "minor", "PATCH": "patch", "BUILD": "bid", "BLD": "bid", "TAG": "tag", "PYTAG": "pytag", "NUM": "num", "INC0": "inc0", "INC1": "inc1"}
+SPEC_PYTAG = {"final": "", "alpha": "a", "beta": "b", "rc": "rc", "dev": "dev", "post": "post", "preview": "rc"}
+
+
+def spec_cal(date):
+    """calendar fields of a date, from datetime/strftime directly: %G ISO year, %W Monday-based week, %U Sunday-based week, %V ISO week"""
+    return dict(year_y=date.year, year_g=int(date.strftime("%G")), quarter=(date.month - 1) // 3 + 1, month=date.month, dom=date.day, doy=int(date.strftime("%j")),
+                week_w=int(date.strftime("%W")), week_u=int(date.strftime("%U")), week_v=int(date.strftime("%V")))
+
+
 def tokenise(pattern):
     """Independent left-to-right longest-match tokenisation of a pattern into part names."""
-    from bumpver import v2patterns
-    names = sorted(v2patterns.PATTERN_PART_FIELDS, key=len, reverse=True)
+    names = sorted(SPEC_FIELDS, key=len, reverse=True)
     out, i = [], 0
     while i < len(pattern):
         for n in names:
@@ -88,17 +100,16 @@ def flag_args(fl, date):
 def spec_incr(impl, old_v, pattern, fl, date):
     """The README's rules at part level.  Returns dict field -> expected value for fields shown by the pattern,
     'bid' mapped to the marker '>' (must strictly increase), or None when no statement is made."""
-    from bumpver import v2patterns, version
     parts = tokenise(pattern)
     fields = []
     for p in parts:
-        f = v2patterns.PATTERN_PART_FIELDS[p]
+        f = SPEC_FIELDS[p]
         if f not in fields:
             fields.append(f)
     cur = old_v._asdict()
     # calendar: from the date unless pinned; never backwards
     if not fl["pin_date"]:
-        c = impl.v2version.cal_info(date)._asdict()
+        c = spec_cal(date)
         old_c = [cur[f] for f in CAL_FIELDS if cur[f] is not None]
         new_c = [c[f] for f in CAL_FIELDS if cur[f] is not None]
         if not (old_c > new_c):
@@ -115,7 +126,7 @@ def spec_incr(impl, old_v, pattern, fl, date):
         if fl["tag"] != cur["tag"]:
             cur["num"] = 0
         cur["tag"] = fl["tag"]
-        cur["pytag"] = version.PEP440_TAG_BY_TAG[fl["tag"]]
+        cur["pytag"] = SPEC_PYTAG[fl["tag"]]
     if not fl["pin_increments"]:
         cur["inc0"] += 1
         cur["inc1"] += 1
